@@ -187,6 +187,17 @@ func (channel *Channel) queueUnbind(method *amqp.QueueUnbind) *amqp.Error {
 		return err
 	}
 
+	// @spec-note
+	// The server MUST NOT allow clients to access the default exchange except by specifying an empty exchange name in the Queue.Bind and content Publish methods.
+	if ex.GetName() == exDefaultName {
+		return amqp.NewChannelError(
+			amqp.AccessRefused,
+			"operation not permitted on the default exchange",
+			method.ClassIdentifier(),
+			method.MethodIdentifier(),
+		)
+	}
+
 	if qu, err = channel.getQueueWithError(method.Queue, method); err != nil {
 		return err
 	}
